@@ -199,6 +199,30 @@ pub fn spaces(tier: Tier) -> Vec<Space<'static>> {
             }
         }));
     }
+    // every sequence of <= 3 units over escapes (all two-character escapes, surrogate halves, a BMP
+    // escape) and ordinary characters that can follow them (u, blank, -, a), in quoted and plain names
+    {
+        const U: [&str; 16] = ["\\/", "\\b", "\\f", "\\n", "\\r", "\\t", "\\\"", "\\\\", "\\ud800", "\\udc00", "\\u0041", "u", " ", "-", "a", "\\uD83D"];
+        let n = U.len() as u64;
+        let total: u64 = (1..=3u32).map(|k| n.pow(k)).sum();
+        sp.push(Space::new("names: every sequence of <= 3 units over the escapes and the characters that may follow them", total, move |idx, acc| {
+            let mut i = idx;
+            let mut len = 1u32;
+            let mut c = n;
+            while i >= c {
+                i -= c;
+                c *= n;
+                len += 1;
+            }
+            let mut body = String::new();
+            for _ in 0..len {
+                body.push_str(U[(i % n) as usize]);
+                i /= n;
+            }
+            judge_raw(format!("{{\"{}\"}}", body).as_bytes(), acc);
+            judge_raw(format!("{{x{},1}}", body).as_bytes(), acc);
+        }));
+    }
     // names that look like something else: float keywords, exponent forms, literals, keywords of the path language
     {
         const LOOKALIKES: [&str; 28] = ["nan", "NaN", "NAN", "inf", "Inf", "infinity", "Infinity", "-inf", "+inf", "e5", "1e5", "1E5", "0x10", "true", "false", "null", "last", "to", "1a", "a1", "-a", "+a", "1.5", ".5", "5.", "--1", "1_000", "1e"];
